@@ -473,3 +473,125 @@ pub fn random_params(rng: &mut Rng, pivot: usize) -> GenParams {
         similar_pairs: rng.chance(1, 2),
     }
 }
+
+// ---------------------------------------------------------------------------
+// delta option swarm
+
+#[derive(Clone, Debug, Serialize, Deserialize)]
+pub struct DeltaOpts {
+    pub args: Vec<String>,
+    pub line_buffer_size: usize,
+    pub side_by_side: bool,
+    pub color_only: bool,
+}
+
+pub const BUFFER_SIZES: &[usize] = &[0, 1, 2, 3, 8, 32];
+
+/// Options that change how hunks are rendered but never what text is shown
+/// (tokens stay visible, one per body line).
+pub fn random_delta_opts(rng: &mut Rng) -> DeltaOpts {
+    let mut a: Vec<String> = vec!["--no-gitconfig".into()];
+    let mut push = |s: &str| a.push(s.to_string());
+    let width = *rng.pick(&[100usize, 120, 160, 200]);
+    push("--width");
+    push(&width.to_string());
+    let mode = rng.below(10);
+    let side_by_side = (3..6).contains(&mode);
+    let color_only = mode == 9;
+    if side_by_side {
+        push("--side-by-side");
+    }
+    if color_only {
+        push("--color-only");
+    }
+    if rng.chance(2, 5) {
+        push("--line-numbers");
+    }
+    let lbs = *rng.pick(BUFFER_SIZES);
+    if lbs != 32 || rng.chance(1, 2) {
+        push("--line-buffer-size");
+        push(&lbs.to_string());
+    }
+    if rng.chance(1, 5) {
+        push("--keep-plus-minus-markers");
+    }
+    if rng.chance(3, 10) {
+        push("--max-line-distance");
+        push(*rng.pick(&["0.0", "0.3", "0.6", "1.0"]));
+    }
+    if rng.chance(3, 20) {
+        push("--navigate");
+    }
+    if rng.chance(3, 10) {
+        push("--hunk-header-style");
+        push(*rng.pick(&["omit", "raw", "syntax", "file line-number syntax"]));
+    }
+    if rng.chance(1, 10) {
+        push("--hunk-header-decoration-style");
+        push(*rng.pick(&["none", "box", "ul", "blue box ul"]));
+    }
+    if rng.chance(1, 10) {
+        push("--file-decoration-style");
+        push(*rng.pick(&["none", "box", "ul ol", "omit"]));
+    }
+    if rng.chance(1, 2) {
+        push("--syntax-theme");
+        push("none");
+    }
+    if rng.chance(1, 20) {
+        push("--diff-so-fancy");
+    }
+    if rng.chance(1, 20) {
+        push("--diff-highlight");
+    }
+    if rng.chance(1, 10) {
+        push("--true-color");
+        push(*rng.pick(&["always", "never"]));
+    }
+    if rng.chance(1, 12) {
+        push("--relative-paths");
+    }
+    if rng.chance(1, 12) {
+        push("--line-fill-method");
+        push(*rng.pick(&["ansi", "spaces"]));
+    }
+    DeltaOpts { args: a, line_buffer_size: lbs, side_by_side, color_only }
+}
+
+// ---------------------------------------------------------------------------
+// other input kinds (no ground truth needed beyond tokens)
+
+pub fn blame_input(rng: &mut Rng, n: usize) -> Vec<u8> {
+    let mut out = String::new();
+    let mut commit = String::new();
+    let mut author = "";
+    for i in 0..n {
+        if i == 0 || rng.chance(1, 3) {
+            commit = (0..8).map(|_| std::char::from_digit(rng.below(16) as u32, 16).unwrap()).collect();
+            author = *rng.pick(&["Dan Davison", "A U Thor", "José Ångström"]);
+        }
+        out.push_str(&format!("{} ({:<14} 2021-0{}-1{} 1{}:0{}:00 +0100 {:>3}) T{:06} let v{} = {};\n", commit, author, rng.range(1, 9), rng.range(0, 9), rng.range(0, 9), rng.range(0, 9), i + 1, i, i, rng.below(100)));
+    }
+    out.into_bytes()
+}
+
+pub fn grep_input(rng: &mut Rng, n: usize) -> Vec<u8> {
+    let mut out = String::new();
+    let mut file = String::from("src/main.rs");
+    for i in 0..n {
+        if rng.chance(1, 4) {
+            file = format!("src/f{}.{}", rng.below(20), rng.pick(&["rs", "py", "c"]));
+        }
+        let sep = if rng.chance(4, 5) { ':' } else { '-' };
+        out.push_str(&format!("{}{}{}{} T{:06} fn match_{}() {{}}\n", file, sep, rng.range(1, 900), sep, i, rng.below(50)));
+    }
+    out.into_bytes()
+}
+
+pub fn plain_text(rng: &mut Rng, n: usize) -> Vec<u8> {
+    let mut out = String::new();
+    for i in 0..n {
+        out.push_str(&format!("T{:06} {}\n", i, rng.pick(WORDS)));
+    }
+    out.into_bytes()
+}
